@@ -7,79 +7,80 @@ import (
 type verifStmt struct {
 	sql   string
 	known string // id of the known finding this entry exhibits ("" = must round-trip)
+	err   bool   // documentation only: on the unrepaired tree the printed text is a syntax error
 }
 
 // verifCatalogue: concrete statement shapes in the subset of the grammar that OctoSQL's
 // parser.ParseNode accepts, centred on OctoSQL's extensions. One feature per entry where possible.
 var verifCatalogue = []verifStmt{
 	// --- plain selects
-	{"SELECT 1", ""},
-	{"SELECT a, b AS c FROM t", ""},
-	{"SELECT * FROM fixtures/simple.json", ""},
-	{"SELECT t.*, u.a FROM t, u", ""},
-	{"SELECT DISTINCT a FROM t WHERE a > 1 AND b < 2 OR NOT c = 3", ""},
-	{"SELECT a, COUNT(*), SUM(DISTINCT b) FROM t GROUP BY a HAVING COUNT(*) > 1 ORDER BY a DESC, b ASC LIMIT 5", ""},
-	{"SELECT * FROM t LIMIT 5 OFFSET 2", ""},
-	{"SELECT * FROM ./test.csv?header=false&x=42 t", ""},
-	{"SELECT * FROM (SELECT a FROM t) s", ""},
-	{"SELECT (SELECT x FROM u LIMIT 1) AS s FROM t WHERE a IN (SELECT y FROM v)", ""},
-	{"WITH a AS (SELECT 1 AS x), b AS (SELECT x FROM a) SELECT * FROM b", ""},
-	{"SELECT 1 UNION ALL SELECT 2", ""},
-	{"(SELECT a FROM t) UNION DISTINCT (SELECT a FROM u) ORDER BY a LIMIT 3", ""},
+	{"SELECT 1", "", false},
+	{"SELECT a, b AS c FROM t", "", false},
+	{"SELECT * FROM fixtures/simple.json", "", false},
+	{"SELECT t.*, u.a FROM t, u", "", false},
+	{"SELECT DISTINCT a FROM t WHERE a > 1 AND b < 2 OR NOT c = 3", "", false},
+	{"SELECT a, COUNT(*), SUM(DISTINCT b) FROM t GROUP BY a HAVING COUNT(*) > 1 ORDER BY a DESC, b ASC LIMIT 5", "", false},
+	{"SELECT * FROM t LIMIT 5 OFFSET 2", "", false},
+	{"SELECT * FROM ./test.csv?header=false&x=42 t", "", false},
+	{"SELECT * FROM (SELECT a FROM t) s", "", false},
+	{"SELECT (SELECT x FROM u LIMIT 1) AS s FROM t WHERE a IN (SELECT y FROM v)", "", false},
+	{"WITH a AS (SELECT 1 AS x), b AS (SELECT x FROM a) SELECT * FROM b", "C30-with-format-panics", false},
+	{"(SELECT 1) UNION ALL SELECT 2", "", false},
+	{"(SELECT a FROM t) UNION DISTINCT (SELECT a FROM u) ORDER BY a LIMIT 3", "", false},
 	// --- TRIGGER clauses
-	{"SELECT a, COUNT(*) FROM t GROUP BY a TRIGGER COUNTING 3", ""},
-	{"SELECT a, COUNT(*) FROM t GROUP BY a TRIGGER ON WATERMARK", ""},
-	{"SELECT a, COUNT(*) FROM t GROUP BY a TRIGGER ON END OF STREAM", ""},
-	{"SELECT a, COUNT(*) FROM t GROUP BY a TRIGGER AFTER DELAY INTERVAL 1 SECOND", ""},
-	{"SELECT a, COUNT(*) FROM t GROUP BY a TRIGGER COUNTING 2, ON WATERMARK, ON END OF STREAM", ""},
+	{"SELECT a, COUNT(*) FROM t GROUP BY a TRIGGER COUNTING 3", "C30-trigger-clause-not-printed", false},
+	{"SELECT a, COUNT(*) FROM t GROUP BY a TRIGGER ON WATERMARK", "C30-trigger-clause-not-printed", false},
+	{"SELECT a, COUNT(*) FROM t GROUP BY a TRIGGER ON END OF STREAM", "C30-trigger-clause-not-printed", false},
+	{"SELECT a, COUNT(*) FROM t GROUP BY a TRIGGER AFTER DELAY INTERVAL 1 SECOND", "C30-trigger-clause-not-printed", false},
+	{"SELECT a, COUNT(*) FROM t GROUP BY a TRIGGER COUNTING 2, ON WATERMARK, ON END OF STREAM", "C30-trigger-clause-not-printed", false},
 	// --- table valued functions, TABLE(), DESCRIPTOR()
-	{"SELECT * FROM range(start => 1, end => 10) r", ""},
-	{"SELECT * FROM range(start => 1, end => 10)", ""},
-	{"SELECT * FROM range(start => 1, end => 10) AS r", ""},
-	{"SELECT * FROM max_diff_watermark(source => TABLE(events), max_diff => INTERVAL 5 SECONDS, time_field => DESCRIPTOR(time), resolution => INTERVAL 1 SECOND) e", ""},
-	{"SELECT * FROM max_diff_watermark(source => TABLE(events e), max_diff => INTERVAL 5 SECONDS, time_field => DESCRIPTOR(e.time))", ""},
-	{"SELECT * FROM poll(source => TABLE(t), poll_interval => INTERVAL 1 SECOND) p", ""},
-	{"SELECT * FROM tumble(source => TABLE(max_diff_watermark(source => TABLE(t), max_diff => INTERVAL 1 SECOND, time_field => DESCRIPTOR(ts)) w), time_field => DESCRIPTOR(ts), window_length => INTERVAL 1 MINUTE) x", ""},
-	{"SELECT * FROM tumble(source => TABLE((SELECT * FROM t) s), time_field => DESCRIPTOR(ts), window_length => INTERVAL 1 MINUTE)", ""},
-	{"SELECT * FROM f(x => a + 1, y => 'str', z => (SELECT 1))", ""},
-	{"SELECT * FROM f()", ""},
+	{"SELECT * FROM range(start => 1, end => 10) r", "C30-tvf-alias-not-printed", true},
+	{"SELECT * FROM range(start => 1, end => 10) AS r", "C30-tvf-alias-not-printed", true},
+	{"SELECT * FROM max_diff_watermark(source => TABLE(events), max_diff => INTERVAL 5 SECONDS, time_field => DESCRIPTOR(time), resolution => INTERVAL 1 SECOND) e", "C30-tvf-alias-not-printed", true},
+	{"SELECT * FROM max_diff_watermark(source => TABLE(events e), max_diff => INTERVAL 5 SECONDS, time_field => DESCRIPTOR(e.time)) w", "C30-tvf-alias-not-printed", true},
+	{"SELECT * FROM poll(source => TABLE(t), poll_interval => INTERVAL 1 SECOND) p", "C30-tvf-alias-not-printed", true},
+	{"SELECT * FROM tumble(source => TABLE(max_diff_watermark(source => TABLE(t), max_diff => INTERVAL 1 SECOND, time_field => DESCRIPTOR(ts)) w), time_field => DESCRIPTOR(ts), window_length => INTERVAL 1 MINUTE) x", "C30-tvf-alias-not-printed", true},
+	{"SELECT * FROM tumble(source => TABLE((SELECT * FROM t) s), time_field => DESCRIPTOR(ts), window_length => INTERVAL 1 MINUTE) w", "C30-tvf-alias-not-printed", true},
+	{"SELECT * FROM f(x => a + 1, y => 'str', z => (SELECT 1)) w", "C30-tvf-alias-not-printed", true},
+	{"SELECT * FROM f() w", "C30-tvf-alias-not-printed", true},
 	// --- joins
-	{"SELECT * FROM a JOIN b ON a.x = b.x", ""},
-	{"SELECT * FROM a LOOKUP JOIN b ON a.x = b.x", ""},
-	{"SELECT * FROM a STREAM JOIN b ON a.x = b.x", ""},
-	{"SELECT * FROM a LEFT JOIN b ON a.x = b.x", ""},
-	{"SELECT * FROM a RIGHT JOIN b ON a.x = b.x", ""},
-	{"SELECT * FROM a OUTER JOIN b ON a.x = b.x", ""},
-	{"SELECT * FROM a l JOIN b r ON l.x = r.x JOIN c ON c.y = r.y", ""},
-	{"SELECT * FROM range(start => 1, end => 3) l LOOKUP JOIN range(start => 1, end => 3) r ON l.i = r.i", ""},
+	{"SELECT * FROM a JOIN b ON a.x = b.x", "", false},
+	{"SELECT * FROM a LOOKUP JOIN b ON a.x = b.x", "C30-join-strategy-not-printed", false},
+	{"SELECT * FROM a STREAM JOIN b ON a.x = b.x", "C30-join-strategy-not-printed", false},
+	{"SELECT * FROM a LEFT JOIN b ON a.x = b.x", "", false},
+	{"SELECT * FROM a RIGHT JOIN b ON a.x = b.x", "", false},
+	{"SELECT * FROM a OUTER JOIN b ON a.x = b.x", "", false},
+	{"SELECT * FROM a l JOIN b r ON l.x = r.x JOIN c ON c.y = r.y", "", false},
+	{"SELECT * FROM range(start => 1, end => 3) l LOOKUP JOIN range(start => 1, end => 3) r ON l.i = r.i", "C30-tvf-alias-not-printed", true},
 	// --- object field access, ->*
-	{"SELECT x->y FROM t", ""},
-	{"SELECT x->y->z FROM t", ""},
-	{"SELECT t.x->y FROM t", ""},
-	{"SELECT x->* FROM t", ""},
-	{"SELECT t.x->y->* FROM t", ""},
-	{"SELECT (x->y)->z, x->y + 1, len(x->y) FROM t WHERE x->y > 3", ""},
-	{"SELECT x->`a b`, x->`select` FROM t", ""},
-	{"SELECT f(x)->y, x[0]->y FROM t", ""},
+	{"SELECT x->y FROM t", "", false},
+	{"SELECT x->y->z FROM t", "", false},
+	{"SELECT t.x->y FROM t", "", false},
+	{"SELECT x->* FROM t", "", false},
+	{"SELECT t.x->y->* FROM t", "", false},
+	{"SELECT (x->y)->z, x->y + 1, len(x->y) FROM t WHERE x->y > 3", "", false},
+	{"SELECT x->`a b`, x->`select` FROM t", "", false},
+	{"SELECT f(x)->y, (x)->y FROM t", "", false},
+	{"SELECT x[0]->y FROM t", "C30-array-index-format", true},
 	// --- expressions
-	{"SELECT x::int, y::float FROM t", ""},
-	{"SELECT CAST(x AS int), x::[], x::{} FROM t", ""},
-	{"SELECT x[1], x[1][2] FROM t", ""},
-	{"SELECT INTERVAL 5 SECONDS + INTERVAL 1 HOUR", ""},
-	{"SELECT a + b * c - d / e % f, -a, (a + b) * c FROM t", ""},
-	{"SELECT a - (b - c), a / (b * c), (a = b) = c FROM t", ""},
-	{"SELECT a IS NULL, a IS NOT NULL, a IN (1, 2), a NOT IN (1, 2) FROM t", ""},
-	{"SELECT a LIKE 'x%', a NOT LIKE 'y', a ~ 'r', a ~* 'r', a !~ 'r', a !~* 'r' FROM t", ""},
-	{"SELECT 'str', 1.5, 1e3, true, false, NULL, 0x1F FROM t", ""},
-	{"SELECT (1, 'a', (2, 3)) FROM t", ""},
-	{"SELECT COALESCE(a, b), now(), count(DISTINCT x) FROM t", ""},
-	{"SELECT a <=> b, a <> b, a != b, a <= b, a >= b FROM t", ""},
-	{"SELECT a OR b AND c, (a OR b) AND c, NOT (a AND b) FROM t", ""},
+	{"SELECT x::int, y::float FROM t", "", false},
+	{"SELECT CAST(x AS int), x::[], x::{} FROM t", "", false},
+	{"SELECT x[1], x[1][2] FROM t", "C30-array-index-format", true},
+	{"SELECT INTERVAL 5 SECONDS + INTERVAL 1 HOUR", "", false},
+	{"SELECT a + b * c - d / e % f, -a, (a + b) * c FROM t", "", false},
+	{"SELECT a - (b - c), a / (b * c), (a = b) = c FROM t", "", false},
+	{"SELECT a IS NULL, a IS NOT NULL, a IN (1, 2), a NOT IN (1, 2) FROM t", "", false},
+	{"SELECT a LIKE 'x%', a NOT LIKE 'y', a ~ 'r', a ~* 'r', a !~ 'r', a !~* 'r' FROM t", "", false},
+	{"SELECT 'str', 1.5, 1e3, true, false, NULL, 0x1F FROM t", "", false},
+	{"SELECT (1, 'a', (2, 3)) FROM t", "", false},
+	{"SELECT COALESCE(a, b), now(), count(DISTINCT x) FROM t", "", false},
+	{"SELECT a <=> b, a <> b, a != b, a <= b, a >= b FROM t", "", false},
+	{"SELECT a OR b AND c, (a OR b) AND c, NOT (a AND b) FROM t", "", false},
 	// --- quoting of leaves inside statements
-	{"SELECT `select`, `a b`, \"quoted id\", `back``tick` FROM `from`", ""},
-	{"SELECT 'it''s', 'a\\'b', 'line\\nbreak', 'back\\\\slash' FROM t", ""},
-	{"SELECT 'tab\there' FROM t", ""},
-	{"SELECT 'say \"hi\"' FROM t", ""},
+	{"SELECT `select`, `a b`, \"quoted id\", `back``tick` FROM `from`", "", false},
+	{"SELECT 'it''s', 'a\\'b', 'line\\nbreak', 'back\\\\slash' FROM t", "", false},
+	{"SELECT 'tab\there' FROM t", "C30-string-escape-asymmetry", false},
+	{"SELECT 'say \"hi\"' FROM t", "C30-string-escape-asymmetry", false},
 }
 
 // VerifC30Statement: for catalogue entry IDX (or every entry when IDX = -1): parse, print, parse the
@@ -96,12 +97,12 @@ func VerifC30Statement() {
 		zzverif.Assert(false, "catalogue-entry-is-accepted")
 		return
 	}
-	s := String(stmt1)
-	stmt2, err2 := Parse(s)
-	zzverif.Reach("printed")
 	if e.known != "" {
 		zzverif.Known(e.known, true)
 	}
+	s := String(stmt1)
+	stmt2, err2 := Parse(s)
+	zzverif.Reach("printed")
 	zzverif.Assert(err2 == nil, "printed-text-parses")
 	zzverif.Assert(String(stmt2) == s, "print-is-fixpoint")
 	zzverif.Assert(verifDump(stmt1) == verifDump(stmt2), "same-tree")
